@@ -351,6 +351,15 @@ func runC07(r *Result, thorough bool) {
 					itx.Body.Peer.NetAddr = "10.6.6.6:1337"
 				}
 				g = d.mkEvent(name, creator, pub, key, spHex, opHex, "", "", idx, txs, base.txs, []hg.InternalTransaction{itx}, []string{desc}, base.ev.Timestamp())
+			} else if kind == "itx-forged-rides-on-genuine" {
+				// two requests in one event: a genuine one, then a forged one about the same peer that
+				// re-uses the genuine signature string
+				good := hg.NewInternalTransactionJoin(*foreign.peer)
+				good.Sign(foreign.key)
+				forged := hg.NewInternalTransactionLeave(*foreign.peer)
+				forged.Signature = good.Signature
+				g = d.mkEvent(name, creator, pub, key, spHex, opHex, "", "", idx, txs, base.txs, []hg.InternalTransaction{good, forged},
+					[]string{fmt.Sprintf("+%d", len(d.parts)), fmt.Sprintf("-%d", len(d.parts))}, base.ev.Timestamp())
 			} else if kind == "bad-itx-signature" {
 				itx := hg.NewInternalTransactionJoin(*foreign.peer)
 				itx.Sign(c0.key) // must be signed by the peer it concerns
@@ -435,7 +444,7 @@ func runC07(r *Result, thorough bool) {
 		}
 		wireKinds := []string{"wire-first-negative", "wire-first-negative", "wire-index-shift", "wire-index-shift", "wire-selfparent-back", "wire-selfparent-back", "wire-selfparent-negative", "wire-selfparent-negative", "wire-otherparent-negative"}
 		allKinds := []string{"index+1", "index-1", "index-same-as-parent", "index-negative", "index-skip", "unknown-selfparent", "unknown-otherparent",
-			"foreign-creator", "wrong-key", "selfparent-of-other", "no-selfparent", "tampered-payload", "bad-itx-signature", "itx-replayed-type-flipped", "itx-replayed-peer-changed"}
+			"foreign-creator", "wrong-key", "selfparent-of-other", "no-selfparent", "tampered-payload", "bad-itx-signature", "itx-replayed-type-flipped", "itx-replayed-peer-changed", "itx-forged-rides-on-genuine"}
 		for i, g := range d.events {
 			// hostile variations of the event that is about to be inserted
 			if rng.Intn(3) == 0 {
